@@ -25,7 +25,8 @@ const (
 	fRetE1
 	fRetE2
 	fRetCanceled
-	fPark // park until ctx done, return ctx.Err()
+	fPark        // park until ctx done, return ctx.Err()
+	fRetDeadline // return context.DeadlineExceeded: an error other than context.Canceled, like E1/E2
 )
 
 var (
@@ -41,6 +42,8 @@ func outcomeErr(o int) error {
 		return errE2
 	case fRetCanceled, fPark:
 		return context.Canceled
+	case fRetDeadline:
+		return context.DeadlineExceeded
 	}
 	return nil
 }
@@ -96,7 +99,7 @@ func ccallBody(n int, withCancel bool, outcomes int) func() {
 			park, hard := false, false
 			for _, o := range outs {
 				park = park || o == fPark
-				hard = hard || o == fRetE1 || o == fRetE2
+				hard = hard || o == fRetE1 || o == fRetE2 || o == fRetDeadline
 			}
 			if park && !hard {
 				return
@@ -118,10 +121,12 @@ func ccallBody(n int, withCancel bool, outcomes int) func() {
 			code = 2
 		case context.Canceled:
 			code = 3
+		case context.DeadlineExceeded:
+			code = 4
 		}
 		vsched.Observe(oRet, code, b2i(cancelled), 0)
 		// state at return time
-		allReturned, anyNonCanceled, sawE1, sawE2 := true, false, false, false
+		allReturned, anyNonCanceled, sawE1, sawE2, sawDL := true, false, false, false, false
 		for i := range fns {
 			if outs[i] == fNilFn {
 				continue
@@ -136,6 +141,8 @@ func ccallBody(n int, withCancel bool, outcomes int) func() {
 				sawE1, anyNonCanceled = true, true
 			case fRetE2:
 				sawE2, anyNonCanceled = true, true
+			case fRetDeadline:
+				sawDL, anyNonCanceled = true, true
 			}
 		}
 		allNil := allReturned
@@ -156,6 +163,10 @@ func ccallBody(n int, withCancel bool, outcomes int) func() {
 		case r == errE2:
 			if !sawE2 {
 				fail("C17.wrong-error", "returned E2 which no function had returned (outcomes %v)", outs)
+			}
+		case r == context.DeadlineExceeded:
+			if !sawDL {
+				fail("C17.wrong-error", "returned context.DeadlineExceeded which no function had returned (outcomes %v)", outs)
 			}
 		case r == context.Canceled:
 			if !cancelled && (!allReturned || anyNonCanceled) {
@@ -273,20 +284,20 @@ func init() {
 	})
 	eng.Register(&eng.Scenario{
 		Name: "ccall-2", Props: []string{"C17"}, MustFinish: true, ObsNames: stdObs,
-		Doc:   "CallConcurrently with 2 functions, every outcome pair over {nil entry, nil, E1, E2, Canceled, park-until-cancelled}, live caller context",
+		Doc:   "CallConcurrently with 2 functions, every outcome pair over {nil entry, nil, E1, E2, Canceled, park-until-cancelled, DeadlineExceeded}, live caller context",
 		Quick: eng.Bounds{PB: 2}, Thorough: eng.Bounds{PB: 4},
-		Body: ccallBody(2, false, 6),
+		Body: ccallBody(2, false, 7),
 	})
 	eng.Register(&eng.Scenario{
 		Name: "ccall-2c", Props: []string{"C17"}, MustFinish: true, ObsNames: stdObs,
 		Doc:   "CallConcurrently with 2 functions and a caller-cancel thread",
 		Quick: eng.Bounds{PB: 2}, Thorough: eng.Bounds{PB: 3},
-		Body: ccallBody(2, true, 6),
+		Body: ccallBody(2, true, 7),
 	})
 	eng.Register(&eng.Scenario{
 		Name: "ccall-3", Props: []string{"C17"}, MustFinish: true, ObsNames: stdObs,
 		Doc:   "CallConcurrently with 3 functions, every outcome triple, live caller context",
 		Quick: eng.Bounds{PB: 1}, Thorough: eng.Bounds{PB: 2},
-		Body: ccallBody(3, false, 6),
+		Body: ccallBody(3, false, 7),
 	})
 }
